@@ -215,6 +215,58 @@ impl Suite for Console {
                 }
                 json!({"r":"ok","out":out})
             }
+            "priv" => {
+                // real PrivilegeGroup / NamespacePrivilegeGroup on (group, keys)
+                use rnacos::common::model::privilege::{NamespacePrivilegeGroup, PrivilegeGroup};
+                let mut out = vec![];
+                for c in case["cases"].as_array().unwrap() {
+                    let g: PrivilegeGroup<Arc<String>> = match serde_json::from_value(c["group"].clone()) {
+                        Ok(g) => g,
+                        Err(e) => {
+                            out.push(json!({"bad": e.to_string()}));
+                            continue;
+                        }
+                    };
+                    let ng = NamespacePrivilegeGroup::new(g.clone());
+                    let flags = g.get_flags();
+                    let rebuilt = NamespacePrivilegeGroup::new(PrivilegeGroup::new(flags, g.whitelist.clone(), g.blacklist.clone()));
+                    let mut rows = vec![];
+                    for k in strs(&c["keys"]) {
+                        let k = Arc::new(k);
+                        rows.push(json!([
+                            g.check_permission(&k),
+                            ng.check_permission(&k),
+                            ng.check_option_value_permission(&None, true),
+                            g.is_all(),
+                            flags,
+                            rebuilt.check_permission(&k)
+                        ]));
+                    }
+                    out.push(Value::Array(rows));
+                }
+                json!({"r":"ok","out":out})
+            }
+            "record" => {
+                // UserDo::build_namespace_privilege (the stored record -> session copy)
+                use rnacos::common::model::privilege::NamespacePrivilegeGroup;
+                let mut out = vec![];
+                for c in case["cases"].as_array().unwrap() {
+                    let u = rnacos::user::model::UserDo {
+                        namespace_privilege_flags: c["flags"].as_u64().map(|v| v as u32),
+                        namespace_white_list: strs(&c["wl"]),
+                        namespace_black_list: strs(&c["bl"]),
+                        ..Default::default()
+                    };
+                    let g = u.build_namespace_privilege();
+                    let ng = NamespacePrivilegeGroup::new(g.clone());
+                    let mut rows = vec![];
+                    for k in strs(&c["keys"]) {
+                        rows.push(json!([ng.check_permission(&Arc::new(k)), g.is_all(), g.get_flags()]));
+                    }
+                    out.push(Value::Array(rows));
+                }
+                json!({"r":"ok","out":out})
+            }
             "http" => {
                 if self.node.is_none() {
                     let env: Vec<(String, String)> = case["env"]
